@@ -36,7 +36,8 @@ ENTRIES = ['lookup', 'lookup1', 'lookupAll', 'names', 'subscriptions',
 SPEC_ENTRIES = ENTRIES[:5]
 OBJ_ENTRIES = ENTRIES[5:]
 POINTS = ['lazy_required', 'providedBy_descriptor', 'uncached_before', 'uncached_after', 'spec_subscribe',
-          'generation_property', 'changed_override', 'changed_before', 'factory']
+          'generation_property', 'changed_override', 'changed_before', 'factory', 'name_hash', 'name_len',
+          'provided_hash', 'required_hash']
 ACTIONS = ['register', 'register_other_key', 'unregister', 'subscribe', 'unsubscribe', 'register_base', 'rbases', 'irebase',
            'cdecl', 'rebuild', 'changed', 'relookup_same', 'relookup_other', 'gc_finalizer', 'finalizer_lookup', 'raise',
            'register_unreadable']
@@ -46,7 +47,7 @@ BURST_SITES = ['changed', 'changed', 'changed', 'register', 'unregister', 'subsc
                'add_extendor', 'remove_extendor', 'init_extendors', '_subscribe', '_verify', '__setBases', '_uncached_lookup',
                '_uncached_lookupAll', '_uncached_subscriptions', '_addSubregistry', '_removeSubregistry', 'unsubscribe', 'dependents']
 BLOCK = 400
-ENUM_NOTE = ('complete product {registry flavour: 2} x {entry point: 9} x {callback point: 9} x {action: 17} x {cache state: 3} '
+ENUM_NOTE = ('complete product {registry flavour: 2} x {entry point: 9} x {callback point: 13} x {action: 17} x {cache state: 3} '
              'restricted to the combinations in which the entry point can reach the callback point; thread schedules are sampled')
 
 
@@ -59,6 +60,14 @@ def applicable(flav, entry, point):
         return flav == 'V'
     if point == 'factory':
         return entry in OBJ_ENTRIES
+    if point in ('name_hash', 'name_len'):
+        # the name handed to the lookup is an instance of a str subclass whose __hash__ / __len__ are Python code: they run
+        # when the lookup probes its per-name cache (and when it asks whether the name is empty)
+        return entry in ('lookup', 'lookup1', 'queryAdapter', 'adapter_hook', 'queryMultiAdapter')
+    if point == 'required_hash':
+        # the looked-up specification is an instance of an InterfaceClass subclass whose __hash__ is Python code: it runs
+        # when the lookup probes its cache for the key (object entries look up the class's specification instead)
+        return entry in SPEC_ENTRIES
     return True
 
 
@@ -234,16 +243,42 @@ def execute_reenter(program, ctx, mode):
                 if lk is not None:
                     judge()
 
+        NM = 'n' if point in ('name_hash', 'name_len') else ''
+
+        class HName(str):
+            def __hash__(self):
+                fire('name_hash')
+                return str.__hash__(self)
+
+            def __eq__(self, other):
+                return str.__eq__(self, other)
+
+            def __ne__(self, other):
+                return str.__ne__(self, other)
+
+            def __len__(self):
+                fire('name_len')
+                return str.__len__(self)
+
         # ---- specs (R0 possibly with a Python-level subscribe) ----------------------------------------------
         class HookedIC(InterfaceClass):
             def subscribe(self, dependent):
                 fire('spec_subscribe')
                 return InterfaceClass.subscribe(self, dependent)
         IC = HookedIC if point == 'spec_subscribe' else InterfaceClass
+
+        class HashIC(InterfaceClass):
+            def __hash__(self):
+                fire(self.__dict__.get('_zisim_point'))
+                return InterfaceClass.__hash__(self)
         R0 = IC(tag + 'R0', (Interface,), {}, __module__='zisim.x')
-        R1 = IC(tag + 'R1', (R0,), {}, __module__='zisim.x')
+        R1 = (HashIC if point == 'required_hash' else IC)(tag + 'R1', (R0,), {}, __module__='zisim.x')
         R2 = InterfaceClass(tag + 'R2', (Interface,), {}, __module__='zisim.x')
-        P0 = InterfaceClass(tag + 'P0', (Interface,), {}, __module__='zisim.x')
+        P0 = (HashIC if point == 'provided_hash' else InterfaceClass)(tag + 'P0', (Interface,), {}, __module__='zisim.x')
+        if point == 'required_hash':
+            R1._zisim_point = 'required_hash'
+        if point == 'provided_hash':
+            P0._zisim_point = 'provided_hash'
 
         class K:
             pass
@@ -364,17 +399,17 @@ def execute_reenter(program, ctx, mode):
 
         def do_action():
             if action == 'register':
-                m = ('reg', 'S', (R1,), P0, '', 'F2')
+                m = ('reg', 'S', (R1,), P0, NM, 'F2')
             elif action == 'register_other_key':
                 m = ('reg', 'S', (R2,), P0, 'zz', 'F2')
             elif action == 'unregister':
-                m = ('unreg', 'S', (R0,), P0, '')
+                m = ('unreg', 'S', (R0,), P0, NM)
             elif action == 'subscribe':
                 m = ('sub', 'S', (R1,), P0, 'S2')
             elif action == 'unsubscribe':
                 m = ('unsub', 'S', (R0,), P0, 'S1')
             elif action == 'register_base':
-                m = ('reg', 'B', (R1,), P0, '', 'FB')
+                m = ('reg', 'B', (R1,), P0, NM, 'FB')
             elif action == 'rbases':
                 m = ('bases', 'S')
             elif action == 'rebuild':
@@ -398,8 +433,8 @@ def execute_reenter(program, ctx, mode):
             elif action == 'gc_finalizer':
                 class Fin:
                     def __del__(self_):
-                        apply(B, S, ('reg', 'S', (R1,), P0, '', 'F2'))
-                        extra.append(('reg', 'S', (R1,), P0, '', 'F2'))
+                        apply(B, S, ('reg', 'S', (R1,), P0, NM, 'F2'))
+                        extra.append(('reg', 'S', (R1,), P0, NM, 'F2'))
                 a = Fin()
                 a.cycle = a
                 del a
@@ -429,7 +464,7 @@ def execute_reenter(program, ctx, mode):
                 # the mutation itself fails half-way: a registration in the asked registry while the change counter of the
                 # registry above it cannot be read (a persistent registry whose state cannot be loaded just then).  The
                 # registration is recorded before the lookup object is told, so it counts; the callback swallows the error.
-                m = ('reg', 'S', (R1,), P0, '', 'F2')
+                m = ('reg', 'S', (R1,), P0, NM, 'F2')
                 if flav == 'V':
                     unreadable[0] = True
                     try:
@@ -455,20 +490,21 @@ def execute_reenter(program, ctx, mode):
                 fire('lazy_required')
                 return iter(self.specs)
 
-        def ask(reg, e, inner=False, spec=R1, lazy=False):
+        def ask(reg, e, inner=False, spec=R1, lazy=False, name=None):
+            name = NM if name is None else name
             if e in OBJ_ENTRIES:
                 if e == 'queryAdapter':
-                    return reg.queryAdapter(ob, P0, '', 'dflt')
+                    return reg.queryAdapter(ob, P0, name, 'dflt')
                 if e == 'adapter_hook':
-                    return reg.adapter_hook(P0, ob, '', 'dflt')
+                    return reg.adapter_hook(P0, ob, name, 'dflt')
                 if e == 'queryMultiAdapter':
-                    return reg.queryMultiAdapter((ob,), P0, '', 'dflt')
+                    return reg.queryMultiAdapter((ob,), P0, name, 'dflt')
                 return reg.subscribers((ob,), P0)
             req = Lazy([spec]) if (lazy and not inner) else [spec]
             if e == 'lookup':
-                return reg.lookup(req, P0, '', 'dflt')
+                return reg.lookup(req, P0, name, 'dflt')
             if e == 'lookup1':
-                return reg.lookup1(spec, P0, '', 'dflt')
+                return reg.lookup1(spec, P0, name, 'dflt')
             if e == 'lookupAll':
                 return sorted(reg.lookupAll(req, P0), key=lambda kv: kv[0])
             if e == 'names':
@@ -489,11 +525,11 @@ def execute_reenter(program, ctx, mode):
                 o2 = K()
                 ob_label[id(o2)] = 'ob'
                 if entry == 'queryAdapter':
-                    return s2.queryAdapter(o2, P0, '', 'dflt')
+                    return s2.queryAdapter(o2, P0, NM, 'dflt')
                 if entry == 'adapter_hook':
-                    return s2.adapter_hook(P0, o2, '', 'dflt')
+                    return s2.adapter_hook(P0, o2, NM, 'dflt')
                 if entry == 'queryMultiAdapter':
-                    return s2.queryMultiAdapter((o2,), P0, '', 'dflt')
+                    return s2.queryMultiAdapter((o2,), P0, NM, 'dflt')
                 return s2.subscribers((o2,), P0)
             return ask(s2, entry)
         e_is_obj = entry in OBJ_ENTRIES
@@ -558,7 +594,7 @@ def execute_reenter(program, ctx, mode):
         armed[0] = True
         exc = None
         try:
-            got = ask(S, entry, lazy=(point == 'lazy_required'))
+            got = ask(S, entry, lazy=(point == 'lazy_required'), name=(HName(NM) if point in ('name_hash', 'name_len') else None))
         except Injected as e:
             exc = e
             got = None
